@@ -591,3 +591,6 @@ mod tests {
         is_sync::<FunctionDefinitionContext>();
     }
 }
+
+#[cfg(kani)]
+pub(crate) mod verif_kani;
